@@ -1,3 +1,4 @@
 import SekaiProofs.Props.C19
 import SekaiProofs.Props.C07
 import SekaiProofs.Props.C08
+import SekaiProofs.Props.C13
